@@ -213,17 +213,49 @@ fn mem_key_prefix(i: u64) -> Vec<u8> {
     k
 }
 
-/// peak heap held while building `n` keys into a discarding sink
-fn build_peak(n: u64, map: bool, prefix_pairs: bool, cap: usize) -> (usize, usize) {
+/// key sequence with UNBOUNDEDLY MANY DISTINCT WIDE last-level nodes: group `c` has the
+/// keys hex(c) ++ b for b in a pseudo-random subset (33..64 members) of 64 bytes
+fn wide_group(c: u64) -> Vec<Vec<u8>> {
+    let mut z = c.wrapping_mul(0x9E3779B97F4A7C15) ^ 0xD1B54A32D192ED03;
+    z ^= z >> 31;
+    let mask = z | 0x0000_0001_FFFF_FFFF; // at least 33 of the 64 bits set
+    let pre = format!("{:09x}", c).into_bytes();
+    (0..64u8)
+        .filter(|b| mask >> b & 1 == 1)
+        .map(|b| {
+            let mut k = pre.clone();
+            k.push(b'0' + b);
+            k
+        })
+        .collect()
+}
+
+/// peak heap held while building about `n` keys into a discarding sink
+fn build_peak(n: u64, map: bool, shape: &str, cap: usize) -> (usize, usize) {
     let base = reset_peak();
     let mut b = raw::Builder::new_type(Discard { n: 0, cap }, 0).unwrap();
     let after_new = live() - base;
-    for i in 0..n {
-        let k = if prefix_pairs { mem_key_prefix(i) } else { mem_key(i) };
+    let mut put = |b: &mut raw::Builder<Discard>, k: &[u8], i: u64| {
         if map {
-            b.insert(&k, i * 3 + 1).unwrap();
+            b.insert(k, i * 3 + 1).unwrap();
         } else {
-            b.add(&k).unwrap();
+            b.add(k).unwrap();
+        }
+    };
+    if shape == "wide" {
+        let mut i = 0u64;
+        let mut c = 0u64;
+        while i < n {
+            for k in wide_group(c) {
+                put(&mut b, &k, i);
+                i += 1;
+            }
+            c += 1;
+        }
+    } else {
+        for i in 0..n {
+            let k = if shape == "prefix" { mem_key_prefix(i) } else { mem_key(i) };
+            put(&mut b, &k, i);
         }
     }
     let p = peak() - base;
@@ -239,13 +271,13 @@ pub fn bang(r: &mut Runner, line: &str) {
             let map = t[1] == "map";
             let n1: u64 = t[2].parse().unwrap();
             let n2: u64 = t[3].parse().unwrap();
-            let prefix = t.get(4).map(|x| *x == "prefix").unwrap_or(false);
+            let shape = t.get(4).copied().unwrap_or("fixed");
             let cap: usize = t.get(5).map(|x| x.parse().unwrap()).unwrap_or(0);
-            let (p1, new1) = build_peak(n1, map, prefix, cap);
-            let (p2, _) = build_peak(n2, map, prefix, cap);
-            r.notes.push(format!("membuild {} keys={} cap={} n1={} peak1={} n2={} peak2={} after_new={}", t[1], if prefix { "prefix-pairs" } else { "fixed" }, cap, n1, p1, n2, p2, new1));
+            let (p1, new1) = build_peak(n1, map, shape, cap);
+            let (p2, _) = build_peak(n2, map, shape, cap);
+            r.notes.push(format!("membuild {} keys={} cap={} n1={} peak1={} n2={} peak2={} after_new={}", t[1], shape, cap, n1, p1, n2, p2, new1));
             r.check(p2 as f64 <= 1.25 * p1 as f64 + 65536.0, || {
-                format!("C13 builder heap grows with the number of keys ({} keys, sink cap {}): peak({})={} peak({})={}", if prefix { "prefix-pair" } else { "fixed-length" }, cap, n1, p1, n2, p2)
+                format!("C13 builder heap grows with the number of keys ({} keys, sink cap {}): peak({})={} peak({})={}", shape, cap, n1, p1, n2, p2)
             });
         }
         "!memstream" => {
@@ -397,7 +429,7 @@ pub fn bang(r: &mut Runner, line: &str) {
         "!bufwriter" => {
             let calls = parse_calls(t.get(1).copied().unwrap_or(""));
             let want = crate::sink::vec_build(0, &calls).unwrap();
-            for cap in [1usize, 7, 8192] {
+            for cap in [1usize, 5, 7, 8192] {
                 let script: Vec<crate::sink::Resp> = (0..100000).map(|i| crate::sink::Resp::Take(1 + (i * 5) % 11)).collect();
                 let sink = crate::sink::new_sink(&[], script, None);
                 let h = sink.clone();
@@ -409,9 +441,76 @@ pub fn bang(r: &mut Runner, line: &str) {
                         Call::Add(k) => b.add(k),
                     };
                 }
-                let ok = b.finish().is_ok();
+                // into_inner hands the BufWriter back WITHOUT dropping it: whatever is
+                // still staged in it has not been flushed by the builder
+                let res = b.into_inner();
+                let (ok, staged) = match &res {
+                    Ok(bw) => (true, bw.buffer().len()),
+                    Err(_) => (false, 0),
+                };
                 let held = h.0.borrow().held.clone();
-                r.check(ok && held == want, || format!("C07 BufWriter(cap {}) over a chunky sink: bytes differ (ok={})", cap, ok));
+                r.check(ok && staged == 0 && held == want, || format!("C07 C11 BufWriter(cap {}) over a chunky sink: ok={} staged-after-finish={} sink holds {} of {} bytes", cap, ok, staged, held.len(), want.len()));
+                drop(res);
+            }
+        }
+        "!freshopen" => {
+            // a process that never built an FST opens one over borrowed bytes and looks keys up
+            let keys: Vec<Vec<u8>> = vec![b"apr".to_vec(), b"aug".to_vec(), b"dec".to_vec(), b"feb".to_vec(), b"jan".to_vec(), b"jul".to_vec(), b"jun".to_vec(), b"mar".to_vec(), b"may".to_vec(), b"nov".to_vec(), b"oct".to_vec(), b"sep".to_vec(), b"tea".to_vec(), b"ten".to_vec()];
+            let bytes = raw::Fst::from_iter_map(keys.iter().enumerate().map(|(i, k)| (k.clone(), i as u64))).unwrap().as_bytes().to_vec();
+            let dir = std::env::var("FST_TMP").unwrap_or_else(|_| "/verif/target/tmp".into());
+            std::fs::create_dir_all(&dir).unwrap();
+            let path = format!("{}/fresh-{}-{}.fst", dir, std::process::id(), r.line_no);
+            std::fs::write(&path, &bytes).unwrap();
+            let exe = std::env::current_exe().unwrap();
+            let out = std::process::Command::new(&exe).arg("openonly").arg(&path).output().unwrap();
+            let _ = std::fs::remove_file(&path);
+            let s = String::from_utf8_lossy(&out.stdout).trim().to_string();
+            r.notes.push(format!("freshopen: {}", s));
+            r.check(s == "allocs 0", || format!("C14 a fresh process opening a {}-byte FST over borrowed bytes and doing lookups: {}", bytes.len(), s));
+        }
+        "!levbig" => {
+            // !levbig <len> <d>: an automaton with far more than 2^16 states, checked on keys near the query
+            let n: usize = t[1].parse().unwrap();
+            let d: u32 = t[2].parse().unwrap();
+            let q: String = (0..n).map(|i| (b'a' + ((i * 7 + i / 5) % 23) as u8) as char).collect();
+            match fst::automaton::Levenshtein::new_with_limit(&q, d, 10_000_000) {
+                Err(_) => r.notes.push("levbig: construction refused".to_string()),
+                Ok(lev) => {
+                    use fst::automaton::Automaton;
+                    let qa: Vec<char> = q.chars().collect();
+                    let mut bad = 0;
+                    for j in 0..450usize {
+                        let mut k = qa.clone();
+                        let p1 = (j * 37) % k.len();
+                        match j % 4 {
+                            0 => {}
+                            1 => k[p1] = 'Z',
+                            2 => {
+                                k.remove(p1);
+                                let p2 = (j * 91) % k.len();
+                                k.insert(p2, 'Y');
+                            }
+                            _ => {
+                                k[p1] = 'Z';
+                                let p2 = (j * 53 + 11) % k.len();
+                                k[p2] = 'X';
+                                if j % 8 == 7 {
+                                    k.push('W');
+                                }
+                            }
+                        }
+                        let ks: String = k.iter().collect();
+                        let mut s = lev.start();
+                        for b in ks.bytes() {
+                            s = lev.accept(&s, b);
+                        }
+                        let want = crate::auts::edit_distance(&qa, &k) <= d as usize;
+                        if lev.is_match(&s) != want {
+                            bad += 1;
+                        }
+                    }
+                    r.check(bad == 0, || format!("C17 {} of 450 keys near a {}-character query decided wrongly (d={})", bad, n, d));
+                }
             }
         }
         "!corpus" => {
@@ -574,4 +673,24 @@ fn stream_peaks(n: u64, k: usize) -> [usize; 8] {
     out[7] += allocs() - a2;
     let _ = a0;
     out
+}
+
+/// `harness openonly <file>`: nothing of the crate has run in this process before
+pub fn open_only(path: &str) {
+    let bytes = std::fs::read(path).unwrap();
+    let probes: Vec<&[u8]> = vec![b"apr", b"jan", b"sep", b"tea", b"zzz", b"", b"ja"];
+    let a0 = allocs();
+    let f = raw::Fst::new(&bytes[..]).unwrap();
+    let mut c = 0u64;
+    for p in &probes {
+        if f.get(p).is_some() {
+            c += 1;
+        }
+        if f.contains_key(p) {
+            c += 1;
+        }
+    }
+    let n = allocs() - a0;
+    std::hint::black_box(c);
+    println!("allocs {}", n);
 }
